@@ -21,6 +21,10 @@ Inductive case :=
         (nfreqs : nat) (lib : list float) (pi : float)
         (fs_impl : float)               (* float(series.sampling_rate) or the Fs passed *)
         (f : list float) (len : nat)    (* returned frequency vector; length of the spectrum's axis *)
+| CSparse (s : site) (src : fs_src) (N NFFT : nat) (sd : sides) (lb : float) (ub : option float)
+          (nfreqs : nat) (lib : list float) (pi : float) (fs_impl : float)
+          (flen : nat) (samples : list (nat * float)) (len : nat)
+          (* a large call: length of the returned vector and its entries at the sampled indices *)
 | CBins (src : fs_src) (NFFT : nat) (lb : float) (ub : option float) (pi : float)
         (bins : list nat)               (* cache_fft: which FFT bins the cached slices hold *)
 | CKeep (src : fs_src) (n : nat) (lb : float) (ub : option float)
@@ -57,6 +61,19 @@ Definition check (c : case) : bool :=
       && forallb ffinite lib && forallb ffinite f
       && (if src_given src then closeb_tol rtol 0 (eff_Fs e) (f2q fs_impl) else true)
       && close_list_tol rtol atol (site_freqs s e) (map f2q f)
+      && (site_len s e =? len)%nat
+  | CSparse s src N NFFT sd lb ub nfreqs lib pi fs_impl flen samples len =>
+      let e := mk_env (src_fs src) (src_given src) N NFFT sd (f2q lb) (opt_f2q ub) nfreqs
+                      (map f2q lib) (f2q pi) in
+      let atol := rtol * Qabsb (eff_Fs e) in
+      let g := site_freqs s e in
+      src_finite src && ffinite lb && opt_finite ub && ffinite pi && ffinite fs_impl
+      && forallb ffinite lib && forallb (fun p => ffinite (snd p)) samples
+      && (if src_given src then closeb_tol rtol 0 (eff_Fs e) (f2q fs_impl) else true)
+      && (length g =? flen)%nat
+      && forallb (fun p => match nth_error g (fst p) with
+                           | Some q => closeb_tol rtol atol q (f2q (snd p))
+                           | None => false end) samples
       && (site_len s e =? len)%nat
   | CBins src NFFT lb ub pi bins =>
       let fs := if src_given src then src_fs src else 2 * f2q pi in
